@@ -156,6 +156,15 @@ CHECKS.update({
         ref='3/C09'),
 })
 
+CHECKS.update({
+    'C16': dict(
+        technique='metamorphic property-based testing: generated traffic history run once (R) and with every datagram duplicated (D) in the deterministic simulator under keyed jitter; traces and callback logs compared',
+        text=SIM + 'queries of every kind and responses with new/refreshed/goodbye/flush records; D must equal R in (time, socket, destination, decoded content) '
+             'and in browser callbacks, except for a repeated unicast reply to a QU-containing datagram.',
+        note='open finding F10 (duplicated QU datagram repeats its multicast side effects) is recognised by signature, removed from the comparison and counted',
+        ref='3/C16'),
+})
+
 NOT_YET = {
 }
 
